@@ -194,11 +194,14 @@ Definition unpermute (order x : list nat) : option (list nat) :=
 Definition tensor_elem (k : nat) (X Y : list nat) : option (list nat * list nat) :=
   if list_eqb (skipn k X) (skipn k Y) then Some (firstn k X, firstn k Y) else None.
 
-Definition plan_elem (p : plan) (x y : list nat) : result (option (list nat * list nat)) :=
-  match unpermute (p_order p) x, unpermute (p_order p) y with
-  | Some X, Some Y => Ok (tensor_elem (p_k p) X Y)
+Definition elem_of (k : nat) (oX oY : option (list nat)) : result (option (list nat * list nat)) :=
+  match oX, oY with
+  | Some X, Some Y => Ok (tensor_elem k X Y)
   | _, _ => Error BadBasisLabel
   end.
+
+Definition plan_elem (p : plan) (x y : list nat) : result (option (list nat * list nat)) :=
+  elem_of (p_k p) (unpermute (p_order p) x) (unpermute (p_order p) y).
 
 (* THE model: entry (x,y) of expand_operator(oper, dims=dims, targets=ts) is
      Ok (Some (r,c))  the operator's entry (r,c)
@@ -266,11 +269,13 @@ Definition expand_table_z (dims orow ocol : list nat) (ts : tspec) : list Z :=
       let rd := p_rdims p in
       let D := prodZ rd in
       let M := (prodZ orow * prodZ ocol + 1)%Z in
-      let labels := map (fun x => (flatZ rd x, x)) (all_digits rd) in
+      (* (flat index, unpermuted label) of every basis label; plan_elem p x y is by definition
+         elem_of (p_k p) (unpermute (p_order p) x) (unpermute (p_order p) y) *)
+      let labels := map (fun x => (flatZ rd x, unpermute (p_order p) x)) (all_digits rd) in
       0%Z :: Z.of_nat (length rd) :: map Z.of_nat rd ++
       flat_map (fun ix => flat_map (fun iy =>
                   let pos := (fst ix * D + fst iy)%Z in
-                  match code_elem orow ocol (plan_elem p (snd ix) (snd iy)) with
+                  match code_elem orow ocol (elem_of (p_k p) (snd ix) (snd iy)) with
                   | Z0 => []
                   | Zpos c => [(pos * M + Zpos c)%Z]
                   | Zneg _ => [(- pos - 1)%Z]
